@@ -5,7 +5,8 @@
 R=$1; P=$2; N=$3
 D=/verif/refactorings/$P/change$N.diff
 [ "$R" = "2" ] && D=/verif/refactorings2/$P/change$N.diff
-[ "$R" != "1" ] && [ "$R" != "2" ] && D=/tmp/ref${R}out_$P/change$N.diff
+[ "$R" = "3" ] && D=/verif/refactorings3/$P/change$N.diff
+[ -f "$D" ] || D=/tmp/ref${R}out_$P/change$N.diff
 [ -f "$D" ] || { echo "== $P ref$N: no diff"; exit 0; }
 WT=/tmp/refwt_$$
 git -C /repo worktree add --detach $WT HEAD >/dev/null 2>&1 || exit 2
